@@ -212,7 +212,8 @@ open Op in
     trace, apply_unary / log, exp, pow / sqrt / isqrt, cholesky, plu) and every operator tree `A` — all
     arities, all sizes, any nesting of Kronecker, KronSum, BlockDiag, Product, Sum, Diagonal, Identity,
     ScalarMul over arbitrary factors — on which the rules of `f` reach down to the factors
-    (`deepRule f A`: every composite node met has a structural rule), the entries allocated while `f(A)`
+    (`deepRule f A`: every composite node met has a structural rule and the recursion ends in leaf kinds only —
+    no sliced / concatenated / `no_dispatch` node, see `C19_rule_cost_opaque_not_covered`), the entries allocated while `f(A)`
     is built are at most `CF · factorDense A + OW · linSize A`:
     `CF = 7` dense copies of each FACTOR (Σ rᵢ·cᵢ over the factors — the generic rule runs on factors
     only) plus `OW = 3` vectors of the LINEAR size per member of every node.  No product of the row and
@@ -229,6 +230,32 @@ theorem C19_rule_cost_clause_needed :
     deepRule Fn.inv A = false ∧ ruleCost Fn.inv A = 1280 ∧ CF * factorDense A + OW * linSize A = 500 := by
   simp [Op.deepRule, Op.ruleCost, Op.act, Op.genCost, Op.cf, Op.rows, Op.cols, Op.factorDense, Op.linSize, Op.vol,
     Op.CF, Op.OW]
+
+open Op in
+/-- round 3 — `deepRule` also excludes every node WITHOUT any structural rule that is not a leaf kind (a
+    `no_dispatch` wrapper, a concatenation, a slice): a generic node inside a Kronecker product is NOT covered
+    by `C19_rule_cost`.  `A = Kronecker(no_dispatch(Kronecker(D₄, D₄)), D₄)`: the rule of `inv` for Kronecker
+    hands the 16 × 16 wrapper to the generic rule, which allocates `5 · 256` entries — the dense size of a
+    composite (`ruleCost = 1564`; `factorDense` would count the wrapper's full 256).  Before round 3 `deepRule`
+    was `true` here and the bound admitted that n².  The same tree without the wrapper IS covered, with
+    `factorDense = 3 · 16`. -/
+theorem C19_rule_cost_opaque_not_covered :
+    let D : Op Int := dense .f64 4 4 (fun _ _ => 1)
+    let G : Op Int := generic (kron [D, D])
+    let A : Op Int := kron [G, D]
+    deepRule Fn.inv A = false ∧ ruleCost Fn.inv A = 1564 ∧ factorDense A = 16 * 16 + 16 ∧
+      deepRule Fn.inv (kron [concat false [D, D], D]) = false ∧
+      deepRule Fn.inv (kron [kron [D, D], D]) = true ∧ factorDense (kron [kron [D, D], D]) = 48 := by
+  simp [Op.deepRule, Op.ruleCost, Op.act, Op.genCost, Op.ownCost, Op.ownW, Op.arity, Op.cf, Op.rows, Op.cols,
+    Op.factorDense, Op.vol]
+
+open Op in
+/-- on a covered tree the bound really is far below the dense size: Kronecker(D₄₀, D₄₀), n = 1600 -/
+example :
+    let D : Op Int := dense .f64 40 40 (fun _ _ => 1)
+    let A : Op Int := kron [D, D]
+    deepRule Fn.inv A = true ∧ CF * factorDense A + OW * linSize A = 37364 ∧ A.rows * A.cols = 2560000 := by
+  simp [Op.deepRule, Op.act, Op.rows, Op.cols, Op.factorDense, Op.linSize, Op.vol, Op.CF, Op.OW]
 
 open Op in
 /-- the hypothesis is satisfiable for every rule family, on nested trees -/
@@ -298,5 +325,6 @@ open ColaVerif.Structural in
 #print axioms ColaVerif.Properties.C19.C19_matmat_peak
 #print axioms ColaVerif.Properties.C19.C19_rule_cost
 #print axioms ColaVerif.Properties.C19.C19_rule_cost_clause_needed
+#print axioms ColaVerif.Properties.C19.C19_rule_cost_opaque_not_covered
 #print axioms ColaVerif.Properties.C19.C19_skeleton_shapes
 #print axioms ColaVerif.Properties.C19.C19_skeleton_derived
